@@ -39,6 +39,15 @@ def init_field_ctor(ctx, cls_qual, field):
             for t in n.targets:
                 if self_attr(t, field):
                     val = n.value
+    # through a local that is bound once in __init__ (`cfg = DEFAULT_CONFIG.copy(); self._config = cfg`)
+    hops = 0
+    while isinstance(val, ast.Name) and hops < 3:
+        defs = [n for n in A.walk(init.node) if isinstance(n, ast.Assign) and any(
+            isinstance(t, ast.Name) and t.id == val.id for t in n.targets)]
+        if len(defs) != 1 or val.id in A.params(init.node):
+            break
+        val = defs[0].value
+        hops += 1
     return val
 
 
